@@ -195,6 +195,16 @@ class Sched:
                 except OSError:
                     pass
                 time.sleep(0.05)
+        elif label == "cckill":
+            # the compiler child alone is killed; its parent lives and must notice (it raises, or - wrongly - goes on)
+            ccpid = self.cc_pid(p)
+            if ccpid:
+                try:
+                    os.kill(ccpid, signal.SIGKILL)
+                except OSError:
+                    pass
+            ok = self.wait_new(p) is not None
+            time.sleep(0.05)
         elif label == "orphan":
             for point in ("cchalf", "ccend"):
                 self.release(p, point)
@@ -338,12 +348,16 @@ def schedules(tier, seed):
     def score(steps):
         labels = [s["label"] for s in steps]
         return (labels.count("ccbegin") >= 2) + 2 * ("crash" in labels) + ("orphan" in labels)
-    out.sort(key=lambda s: -score(s))
     n = 400 if thorough else 48
+    # a quarter of the schedules have the compiler child killed alone
+    ck = [s for s in out if any(x["label"] == "cckill" for x in s)][: n // 4]
+    out = [s for s in out if s not in ck]
+    out.sort(key=lambda s: -score(s))
+    n -= len(ck)
     head = out[: n * 3 // 4]
     tail = out[n * 3 // 4:]
     rng.shuffle(tail)
-    return head + tail[: n - len(head)]
+    return ck + head + tail[: n - len(head)]
 
 
 def pipeline(chk, args, work):
@@ -406,6 +420,10 @@ def run(chk, args):
     if not w["violated"]:
         raise vlib.Machinery("vacuity control: the in-place protocol should violate a property")
     chk.notes["vacuity_control"] = "Build_inplace.cfg violates %s as it must" % w["violated"]
+    w2 = vlib.tlc("Build", "Build_signalOk.cfg", timeout=600)
+    if not w2["violated"]:
+        raise vlib.Machinery("vacuity control: taking a compiler killed by a signal for a success should violate a property")
+    chk.notes["vacuity_control_signal"] = "Build_signalOk.cfg violates %s as it must" % w2["violated"]
     # ---- binding
     work = vlib.scratch("c18")
     try:
@@ -429,20 +447,20 @@ def run(chk, args):
             steps = scheds[tid - 1]
             ev = events[line - 1]
             key = {"clause": clause, "label": ev.get("label", ev["ev"]),
-                   "crash": any(s["label"] == "crash" for s in steps)}
+                   "crash": any(s["label"] in ("crash", "cckill") for s in steps)}
             errs = results[tid - 1][0].get("errors")
             chk.violation(key, {"scenario": {"steps": steps}, "clause": clause, "detail": detail,
                                 "event": ev, "errors": errs})
         for s in scheds:
             labels = [x["label"] for x in s]
-            chk.case(s, nontrivial=(labels.count("ccbegin") >= 2 or "crash" in labels),
+            chk.case(s, nontrivial=(labels.count("ccbegin") >= 2 or "crash" in labels or "cckill" in labels),
                      sample={"schedule": ["%s:%s%s" % (x["proc"], x["label"], "!" if x["kill"] else "") for x in s]})
         pipeline(chk, args, work)
     finally:
         shutil.rmtree(work, ignore_errors=True)
     chk.cov["rule"] = (
         "design: TLC exhaustive over Build (every interleaving of 3-4 processes x kill points x compiler "
-        "child dies/survives); replay: TLC-simulated complete schedules executed by real processes with a "
+        "child dies/survives, compiler child killed alone); replay: TLC-simulated complete schedules executed by real processes with a "
         "scripted compiler, each step's file-system observation validated by BuildTrace.  A schedule is "
         "non-trivial when two compilers run or a process is killed.")
     chk.assumptions += [
